@@ -14,7 +14,7 @@ pub const RULE: &str = "case = (alphabet, scoring matrix with finite non-wildcar
 
 pub const REQUIRED: &[&str] = &[
     "alphabet.dna", "alphabet.protein", "bg.uniform", "bg.nonuniform", "exact.enumerated", "structural.only",
-    "query.below_min", "query.above_max", "query.attainable", "query.attainable_eps", "query.random",
+    "query.below_min", "query.far_below_min", "query.far_above_max", "query.above_max", "query.attainable", "query.attainable_eps", "query.random",
     "roundtrip.p_log_uniform", "roundtrip.p_attainable_tail", "matrix.log_odds", "matrix.arbitrary_finite",
 ];
 
@@ -156,6 +156,11 @@ fn run_case<A: Alphabet>(case: u64, rng: &mut Rng, rep: &mut Report, alpha: &str
         let mut queries: Vec<(f64, &str)> = Vec::new();
         queries.push((ex.min() - 0.5, "query.below_min"));
         queries.push((ex.min() - 50.0 * step, "query.below_min"));
+        queries.push((ex.min() - 10.0, "query.far_below_min"));
+        queries.push((ex.min() - 1000.0, "query.far_below_min"));
+        queries.push((-1.0e30, "query.far_below_min"));
+        queries.push((ex.max() + 1000.0, "query.far_above_max"));
+        queries.push((1.0e30, "query.far_above_max"));
         queries.push((ex.max() + 0.5, "query.above_max"));
         queries.push((ex.max() + 3.0 * step, "query.above_max"));
         queries.push((ex.min(), "query.attainable"));
